@@ -298,6 +298,9 @@ def find_missing_helpers(res, repo, have):
                 S.find(c)
             except Exception:
                 continue
+            # the function found is itself a unit of this group (a method of the same name on another type is missing): not a helper
+            if any(x['file'] == unit['file'] and [sg.strip() for sg in x['item'].split(' :: ')] == c for x in mp.get('units', [])):
+                continue
             key = (unit['file'], c)
             if key not in [(f, sg) for f, sg in have + out]:
                 out.append(key)
